@@ -311,6 +311,16 @@ func (P *Program) contractEffect(fc *FuncContract, sig *types.Signature, recvIfa
 // modExprKeys: x.f | elems(e) | fields(e) | *p | e[i]
 func (P *Program) modExprKeys(m ast.Expr, env map[string]types.Type, out map[string]string) bool {
 	switch ex := m.(type) {
+	case *ast.Ident:
+		if g := P.C.Ghosts[ex.Name]; g != nil {
+			t, err := P.resolveType(g.Type, P.pkgOf(g.PkgPath))
+			if err != nil {
+				return false
+			}
+			keysOfPointee(t, out)
+			return true
+		}
+		return false
 	case *ast.SelectorExpr:
 		t := P.staticType(ex.X, env)
 		if t == nil {
